@@ -420,6 +420,8 @@ func checkVersionComponents(cx *CheckCtx) {
 		return
 	}
 	type lin map[types.Object]int64
+	// constants used by *both* expressions are weights (named 1_000_000 / 1_000), not components
+	weightConsts := map[types.Object]bool{}
 	var eval func(e ast.Expr) (lin, int64, bool) // components, constant part
 	eval = func(e ast.Expr) (lin, int64, bool) {
 		switch x := ast.Unparen(e).(type) {
@@ -429,7 +431,7 @@ func checkVersionComponents(cx *CheckCtx) {
 				return lin{}, v, exact
 			}
 		case *ast.Ident:
-			if o, ok := p.TypesInfo.Uses[x].(*types.Const); ok && o.Pkg() == p.Types {
+			if o, ok := p.TypesInfo.Uses[x].(*types.Const); ok && o.Pkg() == p.Types && !weightConsts[o] {
 				return lin{o: 1}, 0, true
 			}
 			if tv, ok := p.TypesInfo.Types[x]; ok && tv.Value != nil {
@@ -486,6 +488,28 @@ func checkVersionComponents(cx *CheckCtx) {
 		cx.undecided("anchor", "common.Version", "the declarations of common.Version / common.PrevVersion have no value expression", "")
 		return
 	}
+	{
+		uses := func(e ast.Expr) map[types.Object]bool {
+			m := map[types.Object]bool{}
+			ast.Inspect(e, func(n ast.Node) bool {
+				if id, ok := n.(*ast.Ident); ok {
+					if o, ok := p.TypesInfo.Uses[id].(*types.Const); ok && o.Pkg() == p.Types {
+						m[o] = true
+					}
+				}
+				return true
+			})
+			return m
+		}
+		uv, up := uses(exprs["Version"]), uses(exprs["PrevVersion"])
+		for o := range uv {
+			// a shared constant that stands *alone* as a summand is a component used twice, not a weight:
+			// only constants that multiply something are weights
+			if up[o] && multipliesSomething(exprs["Version"], p.TypesInfo, o) && multipliesSomething(exprs["PrevVersion"], p.TypesInfo, o) {
+				weightConsts[o] = true
+			}
+		}
+	}
 	lv, _, ok1 := eval(exprs["Version"])
 	lp, _, ok2 := eval(exprs["PrevVersion"])
 	if !ok1 || !ok2 {
@@ -527,10 +551,44 @@ func checkVersionComponents(cx *CheckCtx) {
 				if _, b := lp[o]; b {
 					continue
 				}
-				bad = append(bad, fmt.Sprintf("%s is declared beside the versions and enters neither", n.Name))
+				// a constant that something else uses (a named weight, a radix) is not a forgotten component
+				usedElsewhere := false
+				for _, uo := range p.TypesInfo.Uses {
+					if uo == types.Object(o) {
+						usedElsewhere = true
+						break
+					}
+				}
+				if usedElsewhere {
+					continue
+				}
+				bad = append(bad, fmt.Sprintf("%s is declared beside the versions and is used by nothing", n.Name))
 			}
 		}
 	}
 	sort.Strings(bad)
 	cx.decide(len(bad) == 0, "version-components", "common.PrevVersion", fmt.Sprintf("Version and PrevVersion are linear forms with weights %s over disjoint components, every declared component enters one of them", weights(lv)), "the oldest supported version is not composed from its own declared triple: "+strings.Join(bad, "; ")+" — the lower bound of CheckVersion is not the documented one (updates from unsupported releases run, or supported ones are refused)", w.pos(exprs["PrevVersion"].Pos()))
+}
+
+// multipliesSomething: every occurrence of the constant o in e is an operand of a multiplication.
+func multipliesSomething(e ast.Expr, info *types.Info, o types.Object) bool {
+	all, any := true, false
+	var walk func(n ast.Expr, inMul bool)
+	walk = func(n ast.Expr, inMul bool) {
+		switch x := ast.Unparen(n).(type) {
+		case *ast.Ident:
+			if info.Uses[x] == o {
+				any = true
+				if !inMul {
+					all = false
+				}
+			}
+		case *ast.BinaryExpr:
+			m := x.Op == token.MUL
+			walk(x.X, m)
+			walk(x.Y, m)
+		}
+	}
+	walk(e, false)
+	return any && all
 }
